@@ -312,6 +312,7 @@ EXTRA10 = {
  "C15": " Lists with a node whose identifier is empty (every order, edge list, root list and start); the deviation on record for NodeGraph is matched as a known finding, anything else is a violation.",
  "C16": " Probe digests composed of algorithm numbers, separators and the list node's digest, for every ordered pair of algorithm numbers.",
  "C18": " A reader fixed to a format in place against per-call options without format and with another format.",
+ "C17": " The sync seam also covers the model package (pkg/sbom, generated code excepted); graph operations on thread-private node lists (RemoveNodes; Union + Intersect; Add + NodeGraph + Copy) each with each: whole calls with <=2 preemptions, code points inside with <=1.",
 }
 for k, v in EXTRA10.items():
     claimed[k]["text"] += v
